@@ -512,6 +512,13 @@ class DateRange:
             date += self.step
 
     def __contains__(self, date):
+        if self.step.total_seconds() < 0:
+            # backward range : stop is the lower bound
+            if self.inclusive:
+                return self.stop <= date <= self.start
+            else:
+                return self.stop < date <= self.start
+
         if self.inclusive:
             return self.start <= date <= self.stop
         else:
